@@ -49,6 +49,8 @@ type c20Harness struct {
 	setCanon  map[string]string // name|token -> canonical value Refinery set
 	setVals   map[string]any
 	added     map[string]string // reserved names Refinery set -> token
+	fill      map[string]c20Val // the constant key fields, one per pool value
+	keyFields []string
 	panicMsg  string
 }
 
@@ -435,6 +437,29 @@ func c20MsgpNested(v int, withTime bool) []byte {
 	return b
 }
 
+// Besides the universe of the specification every event carries one constant
+// field per value of the pool, c20Fill(i) = "kf.<i>", and ALL of them are key
+// fields of the destination's sampler: on the paths that extract key fields
+// they are memoized at construction, on the others whenever the model calls
+// MemoizeFields with the sampler's key fields - so every wire type (uint64
+// extremes, float32, int64-format small ints, bin, nil, arrays, maps ...) goes
+// through raw pass-through AND through memoize + re-encode in every walk. They
+// must come out with the type family and exact value the client sent.
+const c20NFill = 16
+
+func c20Fill(i int) string { return fmt.Sprintf("kf.%02d", i) }
+
+func (h *c20Harness) fillValue(i int) (c20Val, error) {
+	var v c20Val
+	mp := c20MsgpPool()
+	v.mp = mp[i%len(mp)]
+	if i%len(mp) == 15 { // JSON (MarshalJSON) cannot carry -Inf; keep that view alive
+		v.mp = msgp.AppendFloat64(nil, math.Copysign(0, -1))
+	}
+	v.js = c20JSONPool[i%len(c20JSONPool)]
+	return h.finishValue(c20Fill(i), v)
+}
+
 func (h *c20Harness) isJSON() bool { return h.path == "map" || h.path == "jsonbatch" }
 
 // clientValue picks the concrete value the client sends for name (index idx in
@@ -458,6 +483,11 @@ func (h *c20Harness) clientValue(name string, idx int) (c20Val, error) {
 		v.mp = mp[sel%len(mp)]
 		v.js = c20JSONPool[sel%len(c20JSONPool)]
 	}
+	return h.finishValue(name, v)
+}
+
+// finishValue computes what an independent decoder reads from the input.
+func (h *c20Harness) finishValue(name string, v c20Val) (c20Val, error) {
 	if h.isJSON() {
 		// the independent reading of a JSON value: encoding/json, numbers -> float64
 		var x any
@@ -516,6 +546,26 @@ func (h *c20Harness) Reset(init map[string]any) error {
 		h.client = append(h.client, n)
 		h.clientVal[n] = v
 	}
+	h.fill = map[string]c20Val{}
+	var before, after []string
+	keyFields := []string{c20K, c20N}
+	for i := 0; i < c20NFill; i++ {
+		v, err := h.fillValue(i)
+		if err != nil {
+			return err
+		}
+		n := c20Fill(i)
+		h.fill[n] = v
+		h.clientVal[n] = v
+		keyFields = append(keyFields, n)
+		if (i+h.seed+h.vs)%2 == 0 {
+			before = append(before, n)
+		} else {
+			after = append(after, n)
+		}
+	}
+	h.client = append(append(before, h.client...), after...)
+	h.keyFields = keyFields
 	h.setVals = map[string]any{
 		c20R + "|s1": "reason-one", c20R + "|s2": "reason-two",
 		c20A + "|s1": "attr-one", c20A + "|s2": int64(4242),
@@ -532,7 +582,7 @@ func (h *c20Harness) Reset(init map[string]any) error {
 		TraceIdFieldNames:  []string{c20T, "traceId"},
 		ParentIdFieldNames: []string{"trace.parent_id", "parentId"},
 		Samplers: map[string]*config.V2SamplerChoice{"__default__": {DynamicSampler: &config.DynamicSamplerConfig{
-			SampleRate: 1, FieldList: []string{c20K, c20N}}}},
+			SampleRate: 1, FieldList: h.keyFields}}},
 	}
 	return nil
 }
@@ -636,7 +686,14 @@ func (h *c20Harness) Apply(a map[string]any) (err error) {
 	case "ExtractMetadata":
 		return h.p.ExtractMetadata()
 	case "MemoizeFields":
-		h.p.MemoizeFields(c20Names(a["arg"])...)
+		keys := c20Names(a["arg"])
+		for _, k := range keys {
+			if k == c20K { // collector_worker: sp.Data.MemoizeFields(allFields...)
+				keys = append(keys, h.keyFields[2:]...)
+				break
+			}
+		}
+		h.p.MemoizeFields(keys...)
 	case "Set":
 		arg, _ := a["arg"].(map[string]any)
 		n, tok := verifkit.Str(arg, "n"), verifkit.Str(arg, "v")
@@ -758,6 +815,16 @@ func (h *c20Harness) Project() (out any, err error) {
 		c, ok := seen[n]
 		tokens[n] = h.token(n, c, ok)
 	}
+	for n, fv := range h.fill {
+		inUniverse[n] = true
+		if c, ok := seen[n]; !ok || c != fv.canon {
+			disagree = append(disagree, fmt.Sprintf("forwarded %s = %q (present %v), client sent %q", n, c, ok, fv.canon))
+		}
+		g := h.p.Get(n)
+		if !h.p.Exists(n) || c20CanonGo(g) != fv.canon {
+			disagree = append(disagree, fmt.Sprintf("Get(%s) = %q (exists %v), client sent %q", n, c20CanonGo(g), h.p.Exists(n), fv.canon))
+		}
+	}
 	for k := range seen {
 		if _, reserved := metadataFields[k]; !inUniverse[k] && !reserved {
 			extra = append(extra, k)
@@ -790,6 +857,11 @@ func (h *c20Harness) Project() (out any, err error) {
 		v, ok := all[n]
 		if t := h.token(n, c20CanonGo(v), ok); t != strings.TrimSuffix(tokens[n], "~tsext5") {
 			disagree = append(disagree, fmt.Sprintf("All()[%s] says %s, MarshalMsg says %s", n, t, tokens[n]))
+		}
+	}
+	for n, fv := range h.fill {
+		if v, ok := all[n]; !ok || c20CanonGo(v) != fv.canon {
+			disagree = append(disagree, fmt.Sprintf("All()[%s] = %q (present %v), client sent %q", n, c20CanonGo(v), ok, fv.canon))
 		}
 	}
 	for k := range all {
@@ -825,6 +897,11 @@ func (h *c20Harness) Project() (out any, err error) {
 					if werr == nil && json.Unmarshal(wantRaw, &want) == nil && !reflect.DeepEqual(want, jv) {
 						disagree = append(disagree, fmt.Sprintf("MarshalJSON[%s] = %v, want %v", n, jv, want))
 					}
+				}
+			}
+			for n := range h.fill {
+				if _, ok := jm[n]; !ok {
+					disagree = append(disagree, "MarshalJSON lacks "+n)
 				}
 			}
 			for k := range jm {
